@@ -7,7 +7,9 @@ histories (tuples of slice identifiers applied so far).  The real loops (`multis
 into histories and compared symbol for symbol with the Lean model (`Model/Multislice.lean` instantiated with
 `step w s = w ++ [s]`, `detect = id`).
 
-code 0 = never written (the zeros of the allocation); code 1 = empty history (the incident wave).
+code 0 = never written (the zeros of the allocation); code 1 = empty history (the incident wave as handed over).
+The inverse FFT of `Waves.ensure_real_space` (abtem.waves.ifft2) is replaced by a tagging twin that appends the marker 0
+to the history, so a wave handed over in reciprocal space must show `0` before its first slice.
 Slice identifiers: for tagged `PotentialArray`s the (integer) value stored in the slice; for potentials built from atoms
 a lookup of the slice's content hash in a table prepared from independent single-configuration potentials.
 """
@@ -56,14 +58,19 @@ class Tracer:
             ids.append(self.hash_ids.setdefault(self.content_hash(s), first_id + j))
         return ids
 
+    UNKNOWN = 999999  # a slice whose content matches no registered independent slice
+    TO_REAL = 0       # history marker of the representation change (ensure_real_space); slice identifiers are positive
+
     def slice_id(self, potential_slice):
         if self.hash_ids:
-            return self.hash_ids.get(self.content_hash(potential_slice), 0)
+            return self.hash_ids.get(self.content_hash(potential_slice), self.UNKNOWN)
         return int(round(float(np.asarray(potential_slice.array).real.flat[0])))
 
     # ---- the tagging kernel
-    def step(self, waves, potential_slice, *args, **kwargs):
-        sid = self.slice_id(potential_slice)
+    REALSPACE_OFFSET = 500  # the real-space step kernel records slice id + 500: which kernel ran is part of the history
+
+    def step(self, waves, potential_slice, *args, _offset=0, **kwargs):
+        sid = self.slice_id(potential_slice) + _offset
         arr = waves._array  # updated in place, like TransmissionFunction.transmit / FresnelPropagator.propagate
         lead = arr.reshape((-1,) + arr.shape[-2:])
         for m in range(lead.shape[0]):
@@ -73,16 +80,32 @@ class Tracer:
             self.calls += 1
         return waves
 
+    def real_step(self, waves, potential_slice, *args, **kwargs):
+        """tagging twin of realspace_multislice_step (expansion_scope="propagator": returns the waves)"""
+        return self.step(waves, potential_slice, _offset=self.REALSPACE_OFFSET)
+
+    def to_real(self, array, overwrite_x=False):
+        """tagging twin of the inverse FFT used by Waves.ensure_real_space: a new array whose members carry the marker"""
+        arr = np.array(array, copy=True)
+        lead = arr.reshape((-1,) + arr.shape[-2:])
+        for m in range(lead.shape[0]):
+            code = int(round(float(lead[m, 0, 0].real)))
+            lead[m, :, :] = self.code_of(self.hist_of(code) + (self.TO_REAL,))
+        return arr
+
     @contextlib.contextmanager
     def patched(self):
         import abtem.multislice as ms
+        import abtem.waves as wv
 
-        old = ms.conventional_multislice_step
+        old = (ms.conventional_multislice_step, ms.realspace_multislice_step, wv.ifft2)
         ms.conventional_multislice_step = self.step
+        ms.realspace_multislice_step = self.real_step
+        wv.ifft2 = self.to_real
         try:
             yield self
         finally:
-            ms.conventional_multislice_step = old
+            ms.conventional_multislice_step, ms.realspace_multislice_step, wv.ifft2 = old
 
     # ---- decoding
     def decode(self, array, base_dims=2):
@@ -99,6 +122,12 @@ class Tracer:
                 raise AssertionError("wave is not uniformly tagged")
             out.append(self.hist_of(c))
         return ens, out
+
+
+def expected_ids(configs, algorithm):
+    """slice identifiers the step kernel of `algorithm` records for the given configurations"""
+    off = Tracer.REALSPACE_OFFSET if algorithm == "realspace" else 0
+    return [[i + off for i in cfg] for cfg in configs]
 
 
 def entry_s(hist):
@@ -121,14 +150,14 @@ def tagged_potential_array(ids, gpts, thickness, exit_planes, ensemble):
     return PotentialArray(arr[0], slice_thickness=tuple(thickness), sampling=0.5, exit_planes=exit_planes)
 
 
-def tagged_waves(gpts, batch=(), lazy=False):
-    """incident waves carrying the empty history (code 1)"""
+def tagged_waves(gpts, batch=(), lazy=False, recip=False):
+    """incident waves carrying the empty history (code 1), declared to be in real or reciprocal space"""
     from abtem.waves import Waves
     from abtem.core.axes import OrdinalAxis
 
     arr = np.ones(tuple(batch) + (gpts, gpts), dtype=np.complex64)
     meta = [OrdinalAxis(values=tuple(range(b))) for b in batch]
-    w = Waves(arr, energy=100e3, sampling=0.5, ensemble_axes_metadata=meta)
+    w = Waves(arr, energy=100e3, sampling=0.5, ensemble_axes_metadata=meta, reciprocal_space=recip)
     if lazy:
         w = w.lazy() if hasattr(w, "lazy") else w
     return w
